@@ -36,7 +36,7 @@ def floors(tier):
     return {"cases": 20000, "cases_with_2plus_errors": 5000, "cases_context_depth2": 500, "invalid_schemas": 2000,
             "proxy_controls_touched": 500, "via_dollar_schema": 2000, "with_format_checker": 2000,
             "best_match_is_descendant": 500, "best_match_is_toplevel": 2000,
-            "reused_validator_sequences": 1000, "root_reference_objects": 500, "one_reference_under_two_bases": 100, "calls_while_an_iteration_is_suspended": 250,
+            "reused_validator_sequences": 1000, "root_reference_objects": 500, "one_reference_under_two_bases": 100, "calls_while_an_iteration_is_suspended": 250, "reused_over_same_class_instances": 1200,
             "fault_cases": 2000, "fault_after_first_error": 300, "fault_before_first_error": 300,
             "explicit_class_with_foreign_dollar_schema": 1000, "non_object_whole_schemas": 20, "cases_exotic_containers": 800, "repeats_after_a_failed_call": 40}
 
@@ -395,6 +395,28 @@ def while_an_iteration_is_suspended(ctx):
                                           "uninterrupted it yields %d" % (len(taken) + len(rest), len(want_inst)))
 
 
+def reused_over_same_class_instances(ctx):
+    """One validator asked about instances of ONE Python class whose answers differ by VALUE (3.0 is an integer for drafts
+    6/7, 3.5 is not; 1 and True; "" and "x"; [] and [1]): every answer is the fresh validator's, in any order."""
+    import types
+    seqs = [[3.0, 3.5, 3.0, 4.5, 1e300, -0.0, 2.5, 7.0], [3.5, 3.0, 3.5], [1, True, 0, False, 1], [True, 1, 2], ["", "x", "xy", ""], [[], [1], [1, 1], []],
+            [{}, {"a": 1}, {"a": 1.5}, {"a": 2.0}], [2.0, 2, 2.5, True], [None, 0, 0.0, "0"]]
+    schemas = [{"type": "integer"}, {"type": ["integer", "null"]}, {"items": {"type": "integer"}}, {"properties": {"a": {"type": "integer"}}},
+               {"type": "number"}, {"type": "boolean"}, {"type": ["boolean", "string"]}, {"enum": [1, "x", [1]]}, {"minLength": 1}, {"maxItems": 1, "uniqueItems": True},
+               {"type": "integer", "minimum": 3}, {"additionalProperties": {"type": "integer"}}, {"type": ["array", "integer"], "items": {"type": "integer"}}]
+    n = 0
+    for d in impl.DRAFTS:
+        for S in schemas:
+            for seq in seqs:
+                n += 1
+                if not ctx.mine(n):
+                    continue
+                variants = [seq, seq[::-1], [[x] for x in seq], [{"a": x} for x in seq]]
+                for insts in variants:
+                    ctx.count("reused_over_same_class_instances")
+                    reused_validator_sequence(ctx, d, types.SimpleNamespace(schema=S, store={}, handler_docs={}), list(insts))
+
+
 def same_reference_under_two_bases(ctx):
     """One reference string standing under two different base URIs in one schema designates two different schemas; instances
     that visit only one of the places, in either order, on one validator object and through the module-level function."""
@@ -549,6 +571,7 @@ def run(ctx):
         after_a_failed_call(ctx)
     same_reference_under_two_bases(ctx)
     while_an_iteration_is_suspended(ctx)
+    reused_over_same_class_instances(ctx)
     # whole schemas that are neither objects nor booleans, given to module-level validate() WITHOUT a class (the latest
     # draft is chosen) and with every explicit class: SchemaError before the instance is looked at
     if ctx.shard == 0:
